@@ -1,6 +1,6 @@
 """Runs volume-connectivity query scripts on /repo's implementation and reports canonical observations (C03).
 
-stdin : {"cases": [ {"V": [[x,y,z]..], "C": [[a,b,c,d]..], "kind": "list|tuple|numpy|from_arrays", "sort": bool,
+stdin : {"cases": [ {"V": [[x,y,z]..], "C": [[a,b,c,d]..], "F0": declared faces, "E0": declared edges, "kind": "list|tuple|numpy|from_arrays", "sort": bool,
                      "script": [[op, args...], ...]} ... ]}
 stdout: '@@JSON ' + {"obs": [ {"faces":..., "edges":..., "answers": [...], ...} ... ]}
 
@@ -52,10 +52,18 @@ def build(case):
     from mouette.mesh.mesh_data import RawMeshData
     M.config.sort_neighborhoods = bool(case["sort"])
     kind = case["kind"]
+    F0, E0 = case.get("F0") or [], case.get("E0") or []
     if kind == "from_arrays":
-        return M.mesh.from_arrays(np.array(case["V"], dtype=float), C=np.array(case["C"], dtype=int))
+        return M.mesh.from_arrays(np.array(case["V"], dtype=float),
+                                  E=np.array(E0, dtype=int) if E0 else None,
+                                  F=np.array(F0, dtype=int) if F0 else None,
+                                  C=np.array(case["C"], dtype=int))
     d = RawMeshData()
     d.vertices += [[float(x) for x in p] for p in case["V"]]
+    for e in E0:
+        d.edges.append(list(e) if kind == "list" else (tuple(e) if kind == "tuple" else np.array(e, dtype=int)))
+    for f in F0:
+        d.faces.append(list(f) if kind == "list" else (tuple(f) if kind == "tuple" else np.array(f, dtype=int)))
     for c in case["C"]:
         if kind == "list":
             d.cells.append(list(c))
